@@ -29,7 +29,12 @@ Definition instance_of (host : hostg) (rc : its) (g : its) : Prop :=
     (balancedb rc = true ->
        (forall e, elem_count e (fst (its_decompose g)) = elem_count e (snd (its_decompose g))) /\
        total_charge (fst (its_decompose g)) = total_charge (snd (its_decompose g))) /\
-    (* (c) *)
+    (* (c) atoms: a matched atom carries the rule atom's element, hydrogen change and charges; any other atom is unchanged *)
+    (forall (p : N) (pn : inode) (h : N), In (p, pn) (gnodes rc) -> mget m p = Some h ->
+       exists a : inode, label T h = Some a /\ a_el (iG a) = a_el (iG pn) /\ a_el (iH a) = a_el (iG pn) /\ dH a = dH pn /\
+                         a_ch (iG a) = a_ch (iG pn) /\ a_ch (iH a) = a_ch (iH pn)) /\
+    (forall (h : N) (a : inode), ~ In h (map snd m) -> label T h = Some a -> iH a = iG a) /\
+    (* (c) bonds *)
     Permutation (changed_bonds T) (image_changed_bonds m rc) /\
     (forall ms, explicit_h_ord (ord_of tbl) T = Some (g, ms) ->
        changed_bonds g = changed_bonds T ++ new_bond_keys (N.succ (max_id T)) ms /\
